@@ -22,9 +22,9 @@ BOUNDS = {
               "body": "<= 9 bytes in 1-3 chunks"},
     "thorough": {"range_text": "<= 7 characters", "etag_text": "<= 3 characters", "body": "<= 12 bytes in 1-4 chunks"},
 }
-STUBS = ["dates are enumerated concrete datetimes (before/equal/after, sub-second, non-UTC offsets): datetime is C"]
+STUBS = ["ETag obligations: dates are enumerated concrete datetimes (before/equal/after, sub-second, non-UTC offsets)", "conditional_dates: calendar fields of Last-Modified and If-Modified-Since are solver ints; datetime constructors / comparison / astimezone follow harness/dtmodel.py (contract model, validated natively on every path); email.utils._parsedate_tz is interpreted"]
 ASSUMPTIONS = ["body content is the position pattern", "response ETags contain no double quote"]
-OUTSIDE = ["send_file (filesystem)", "real date parsing of arbitrary text", "multi-part/byteranges bodies (werkzeug answers 416)"]
+OUTSIDE = ["send_file (filesystem)", "numeric zone offsets are enumerated (not solver-quantified)", "If-Range dates", "multi-part/byteranges bodies (werkzeug answers 416)"]
 
 
 def body_parse_range(I, X, n=4):
@@ -302,22 +302,29 @@ def body_conditional_dates(I, X, lm_month=3, ims_month=3, zone="GMT", lm_kind="a
 
     a = fields("a", lm_month)     # Last-Modified (a datetime object, as applications pass it)
     b = fields("b", ims_month)    # If-Modified-Since (header text)
+    # the header's zone is enumerated ('GMT' or a numeric offset such as '+0130'); all calendar
+    # fields of both sides are solver integers
+    ztext = zone
     off = 0
-    if zone == "GMT":
-        ztext = "GMT"
-    else:
-        oh, om = X.int("oh", 0, 23), X.int("om", 0, 59)
-        ztext = pconcat(zone, p2(oh), p2(om))
-        off = (oh * 3600 + om * 60) * (1 if zone == "+" else -1)
-        # '-0000' means "no zone information" (naive, taken as UTC): same instant as +0000
+    if zone != "GMT":
+        off = (int(zone[1:3]) * 3600 + int(zone[3:5]) * 60) * (1 if zone[0] == "+" else -1)
+        # ('-0000' means "no zone information": naive, taken as UTC -- the same instant as +0000)
     hdr = pconcat("Mon, ", p2(b[2]), " ", MONTHS[ims_month - 1], " ", pstr(b[0]), " ", p2(b[3]), ":", p2(b[4]), ":", p2(b[5]), " ", ztext)
-    tz = dtm.timezone.utc if lm_kind == "aware" else None
+    lm_off = 0
+    if lm_kind == "aware":
+        tz = dtm.timezone.utc
+    elif lm_kind == "naive":
+        tz = None
+    else:
+        # a Last-Modified value in another fixed offset, e.g. 'off+0530'
+        lm_off = (int(lm_kind[4:6]) * 3600 + int(lm_kind[6:8]) * 60) * (1 if lm_kind[3] == "+" else -1)
+        tz = dtm.timezone(dtm.timedelta(seconds=lm_off))
     if X.symbolic:
         lm = SymDatetime(a, tz)
     else:
         lm = dtm.datetime(*a, tzinfo=tz)
     modified = I.call(is_resource_modified, (), {"last_modified": lm, "http_if_modified_since": hdr})
-    unmod = utc_seconds(a, 0) <= utc_seconds(b, off)
+    unmod = utc_seconds(a, lm_off) <= utc_seconds(b, off)
     got_unmod = pnot(modified) if not isinstance(modified, bool) else (not modified)
     return peq(got_unmod, unmod), {"header": hdr, "modified": bool(modified)}
 
@@ -340,9 +347,11 @@ def obligations(tier, seed):
         add(f"range_wrapper[seekable,total={total}]", "body_range_wrapper", {"nchunks": 1, "total": total, "seekable": True})
     for n in ([1, 2, 3] if quick else [1, 2, 3, 4, 5]):
         add(f"process_range[n={n}]", "body_process_range", {"n": n}, n == 3, 1500)
-    combos = [(3, 3, "GMT", "aware"), (2, 3, "+", "aware"), (12, 1, "-", "naive"), (1, 12, "+", "aware")]
+    combos = [(3, 3, "GMT", "aware"), (2, 3, "+0130", "aware"), (12, 1, "-0800", "naive"), (1, 12, "+2359", "aware"), (3, 2, "-0000", "naive"),
+              (3, 3, "GMT", "off+0530"), (1, 12, "-0800", "off-1100")]
     if not quick:
-        combos += [(m, m, z, k) for m in (2, 6, 12) for z in ("GMT", "+", "-") for k in ("aware", "naive")]
+        combos += [(m, m2, z, k) for m, m2 in ((2, 2), (6, 7), (12, 1), (1, 12), (3, 2)) for z in ("GMT", "+0000", "+0130", "-0800", "-2359", "+1400")
+                   for k in ("aware", "naive", "off+0100", "off-0930")]
     for lm_m, ims_m, zone, kind in combos:
         add(f"conditional_dates[lm_month={lm_m},ims_month={ims_m},zone={zone},{kind}]", "body_conditional_dates",
             {"lm_month": lm_m, "ims_month": ims_m, "zone": zone, "lm_kind": kind}, False, 1500)
